@@ -45,9 +45,19 @@ def e1_job(module, cls, cfg, caps, nproc=None):
         h = H(**cfg)
         try:
             drv = h.build()
+        except tsx.HarnessError:
+            raise
         except tsx.CombLoop as e:
             out.update(error=None, comb_loop=str(e), states=0, transitions=0, violations=[
                 {"clauses": ["comb_loop: combinational cycle in elaborated design"], "path": [], "detail": str(e)[:300]}],
+                violating=1, counters={}, replayed=0, exhaustive=False, depth_completed=0, caps_hit=[],
+                samples=[], distinct_obs=0, wall=time.time() - t0)
+            return out
+        except Exception as e:
+            # the real library refuses to build a configuration the property quantifies over
+            out.update(error=None, states=0, transitions=0, violations=[
+                {"clauses": [f"elaboration: {type(e).__name__} while building the design"], "path": [],
+                 "detail": traceback.format_exc()[-1200:]}],
                 violating=1, counters={}, replayed=0, exhaustive=False, depth_completed=0, caps_hit=[],
                 samples=[], distinct_obs=0, wall=time.time() - t0)
             return out
